@@ -151,6 +151,40 @@ def run(F, rep, tier):
                           "Mode::%s on both sides; sender sk seals / sender pk opens; recipient pk seals / recipient sk (self) opens" % ms,
                           "%s: HPKE roles are not mirrored (send mode %s %s, recv mode %s %s, pkR %s, skR %s)" % (label, ms, sorted(os_), mo, sorted(oo), sorted(pkr), sorted(skr)), s.site())
     rep.floor("seal/open pairs", n_pairs, 5)
+    # tuple_hash contexts anywhere under the pairs (direct or in a shared helper): no duplicated
+    # item, and a context struct that contributes one field must contribute all of them
+    from rules.core import k4
+    from rules.core.facts import strip_generics
+    cg = k4.CallGraph(F)
+    roots = []
+    for label, sp, op, ctx_adt in PAIRS:
+        roots += [find(F, sp), find(F, op)]
+    order, seen, stats = cg.reach(roots, scope=["aranya_crypto::apq::", "aranya_crypto::groupkey::", "aranya_crypto::aranya::", "aranya_crypto::tls::psk::"])
+    nth = 0
+    for f in order:
+        for tag, items in th_items(f):
+            nth += 1
+            key = "%s|%s" % (f.path.split("::")[-2] + "::" + f.name, tag)
+            nonempty = [tuple(i) for i in items if i]
+            dup = [i for i in set(nonempty) if nonempty.count(i) > 1]
+            rep.check(not dup, "tuple|%s|no-duplicate-item" % key, "K6 field coverage",
+                      "no context item is hashed twice in place of another (%d items)" % len(items),
+                      "%s hashes the same component twice (%s): another component has been dropped from the context" % (f.path, dup), f.site())
+            # struct parameters
+            for ai in range(1, f.nargs + 1):
+                ty = strip_generics(f.local_ty(ai).replace("&mut ", "").replace("&", "").replace("'_ ", "").strip())
+                adt = F.adts.get(ty)
+                nm = f.local_name(ai)
+                if not adt or not nm or adt["kind"] != "Struct":
+                    continue
+                flds = [x["name"] for x in adt["variants"][0]["fields"] if not x["name"].isdigit() and "PhantomData" not in x["ty"]]
+                used = {t[6:] for i in items for t in i if t.startswith("field:")} & set(flds)
+                from_this = any("argname:" + nm in i for i in items)
+                if used and from_this and len(flds) > 1:
+                    rep.check(used == set(flds), "tuple|%s|covers-all-of:%s" % (key, nm), "K6 field coverage",
+                              "every field of `%s: %s` (%s) is part of the hashed context" % (nm, ty.split("::")[-1], flds),
+                              "%s: context parameter `%s` contributes only %s of its fields %s" % (f.path, nm, sorted(used), flds), f.site())
+    rep.floor("tuple_hash contexts examined", nth, 2)
     # Context::to_bytes coverage
     tb = F.fn("aranya_crypto::groupkey::Context::to_bytes")
     adt = F.adt("aranya_crypto::groupkey::Context")
